@@ -232,6 +232,10 @@ def e2e_err_crate(decl, prog, mac):
 def _kinds(prog):
     return tuple(sorted(set(p[0] for p in prog["params"])))
 
+def mac_tags(mac):
+    """a wrong matched set breaks C05, and with it what the loop macros promise about the entities they visit"""
+    return ["C05"] + (["C06"] if mac in ("iter", "iter_borrow") else []) + (["C07"] if mac == "iter_destroy" else [])
+
 def match_enum(tier, seed):
     key = key_of("match", repo_hash(), verif_hash(), tier, seed)
     c = cache_get("match", key)
@@ -243,10 +247,12 @@ def match_enum(tier, seed):
     lab = build_macrolab()
     # quick: all pairs of archetypes x lists of two parameters; three archetypes x single parameters;
     # component names that are prefixes of each other
-    confs = [("Pool3", 2, 2), ("Pool3", 3, 1), ("PoolP", 2, 1)] if tier == "quick" else [("Pool3", 3, 2), ("Pool4", 2, 2), ("PoolP", 2, 2)]
+    # "mixed": even-numbered archetypes declare their columns in reverse pool order
+    confs = ([("Pool3", 2, 2, "mixed"), ("Pool3", 3, 1, "canon"), ("PoolP", 2, 1, "canon")] if tier == "quick"
+             else [("Pool3", 3, 2, "mixed"), ("Pool3", 2, 2, "canon"), ("Pool4", 2, 2, "mixed"), ("PoolP", 2, 2, "canon")])
     progs, states, trans = [], 0, 0
-    for pool, ma, mp in confs:
-        items, st = tlc_lines("MatchMC", "SPECIFICATION Spec\nCONSTANTS\n  PoolSeq <- %s\n  MaxArch = %d\n  MaxParams = %d\nINVARIANTS Sound Complete Export\nCHECK_DEADLOCK FALSE\n" % (pool, ma, mp), "PROG")
+    for pool, ma, mp, order in confs:
+        items, st = tlc_lines("MatchMC", "SPECIFICATION Spec\nCONSTANTS\n  PoolSeq <- %s\n  MaxArch = %d\n  MaxParams = %d\n  ColOrder = \"%s\"\nINVARIANTS Sound Complete Export\nCHECK_DEADLOCK FALSE\n" % (pool, ma, mp, order), "PROG")
         progs += items
         states += st.get("distinct", 0)
         trans += st.get("generated", 0)
@@ -271,7 +277,7 @@ def match_enum(tier, seed):
         outcome_count[prog["outcome"]] = outcome_count.get(prog["outcome"], 0) + 1
         msg = lab_compare(prog, mac, res)
         if msg:
-            violations.append({"tags": ["C05"], "what": "ecs_%s!: %s" % (mac, msg), "at": pi,
+            violations.append({"tags": mac_tags(mac), "what": "ecs_%s!: %s" % (mac, msg), "at": pi,
                                "event": {"decl": prog["decl"], "params": prog["params"], "macro": mac, "expected": prog["outcome"], "generator": res},
                                "origin": {"engine": "match-lib"}})
         if res.get("unsafe", 0) > 0:
@@ -325,7 +331,7 @@ def match_enum(tier, seed):
         got = dict(l.split(" ", 1) if " " in l else (l, "") for l in r.get("stdout", "").splitlines())
         for q, want, prog, mac in expect:
             if got.get(q, "<missing>").strip() != want:
-                out.append({"tags": ["C05"], "what": "ecs_%s! ran on %r, expected %r" % (mac, got.get(q, "<missing>"), want), "at": 0,
+                out.append({"tags": mac_tags(mac), "what": "ecs_%s! ran on %r, expected %r" % (mac, got.get(q, "<missing>"), want), "at": 0,
                             "event": {"decl": decl, "params": prog["params"], "macro": mac}, "origin": {"engine": "match-e2e"}})
         return [("n", len(expect))] + out
     def run_err(job):
